@@ -316,23 +316,32 @@ fn run_history(disk: &[usize], steps: &[Step], located_only: Option<&'static str
                 st.inc("step:change");
                 let doc = client.docs[*f].as_mut().unwrap();
                 let mut wire = Vec::new();
+                let mut lengths = Vec::new();
                 for (range, text) in changes {
                     match range {
                         None => {
                             *doc = ClientDoc::new(text);
                             wire.push((None, text.clone()));
+                            lengths.push(None);
                             st.inc("changes:full");
                         }
                         Some((s, e)) => {
                             let (ps, pe) = (doc.position_of(*s), doc.position_of(*e));
                             doc.replace(*s, *e, text);
                             wire.push((Some([ps, pe]), text.clone()));
+                            // every other ranged change also carries the replaced length in UTF-16 units
+                            if (s + e + i) % 2 == 0 {
+                                lengths.push(Some((e - s) as u32));
+                                st.inc("changes:with-rangeLength");
+                            } else {
+                                lengths.push(None);
+                            }
                             st.inc("changes:incremental");
                         }
                     }
                 }
                 client.versions[*f] += 1;
-                lsp.did_change(&uris[*f], client.versions[*f], &wire)
+                lsp.did_change_with_lengths(&uris[*f], client.versions[*f], &wire, &lengths)
             }
             Step::Request(f, m, at) => {
                 st.inc("step:request");
